@@ -9,7 +9,7 @@
 From Coq Require Import List Arith ZArith NArith Bool Sorted Permutation.
 From Coq.Strings Require Import Byte.
 From RimeV Require Import Lookup.Defs Lookup.Model Lookup.Spec Lookup.MapProofs Lookup.QueryProofs Lookup.IterProofs
-     Lookup.LookupProofs Lookup.ScriptProofs Lookup.TableProofs Lookup.Examples Lookup.Compose Lookup.WeightProofs Lookup.LazyProofs Lookup.ComposeTable Lookup.ComposePrism Lookup.ComposeAll.
+     Lookup.LookupProofs Lookup.ScriptProofs Lookup.TableProofs Lookup.Examples Lookup.Compose Lookup.WeightProofs Lookup.LazyProofs Lookup.ComposeTable Lookup.ComposePrism Lookup.ComposeAll Lookup.Poet Lookup.PoetProofs Lookup.PoetCompose.
 Import ListNotations.
 
 (** * Table::Query returns, at every end position, exactly the index codes that label a path of the graph *)
@@ -465,3 +465,179 @@ Theorem C07_example_table_after_repair :
   map d_w (table_entries true false ex_prism ex_syls ex_table [98%N]) = [100%Z; 2%Z; 1%Z].
 Proof. exact table_exact_weight_order_example. Qed.
 Print Assumptions C07_example_table_after_repair.
+
+(** * the sentence maker (gear/poet.cc) inside the model: Lookup/Poet.v ports Poet::MakeSentence with both strategies
+    (DynamicProgramming without a grammar, BeamSearch with one), CompareWeight / LeftAssociateCompare and
+    Grammar::Evaluate.  The oracle hypothesis of C07_sentence_is_concatenation / C07_script_no_foreign_candidate is
+    discharged for it; the generic theorems above are kept. *)
+
+(** every grammar, comparison, word graph and length: a returned sentence is a chain of word-graph entries that ends at
+    [total] and never uses the single edge 0 -> total; it starts at 0 - or, without a grammar only, at the end of an
+    edge WITHOUT entries (the dynamic programme creates [states[end_pos]] before it looks at the entries) *)
+Theorem C07_poet_sentence_is_chain : forall gr pen cmp preceding wg total s,
+  make_sentence gr pen cmp preceding wg total = Some s ->
+  exists o, wchain wg total o total s /\ (o = 0 \/ (gr = None /\ eend wg o)).
+Proof. exact make_sentence_chain. Qed.
+Print Assumptions C07_poet_sentence_is_chain.
+
+(** "... it starts at 0" for ALL word graphs is false of the faithful model (0 -[no entry]-> 1 -[X]-> 2 yields "X" as a
+    sentence for [0, 2)); replayed on rime::Poet by the direct stream of the check.  Neither translator builds such
+    a graph (the four theorems after the next two). *)
+Theorem C07_poet_sentence_from_zero_refuted :
+  wg_map quirk_wg /\ wg_sorted quirk_wg /\ wg_forward quirk_wg /\
+  dp_sentence None 0%Z compare_weight [] quirk_wg 2 = Some [(qx, 2)] /\
+  wg_path_ok quirk_wg 0 2 [(qx, 2)] = false /\ wg_path_ok quirk_wg 1 2 [(qx, 2)] = true.
+Proof. exact dp_sentence_from_zero_refuted. Qed.
+Print Assumptions C07_poet_sentence_from_zero_refuted.
+
+(** the assumed [wg_path_ok wg 0 total s], proved: graphs (maps of maps) without an edge that has no entry ... *)
+Theorem C07_poet_path_ok_no_empty_edge : forall gr pen cmp preceding wg total s,
+  wg_det wg -> wg_no_empty wg ->
+  make_sentence gr pen cmp preceding wg total = Some s -> wg_path_ok wg 0 total s = true.
+Proof. exact make_sentence_path_ok_no_empty. Qed.
+Print Assumptions C07_poet_path_ok_no_empty_edge.
+
+(** ... and graphs whose every start position is reached over an edge with entries from an earlier start position *)
+Theorem C07_poet_path_ok_grounded : forall gr pen cmp preceding wg total s,
+  wg_det wg -> grounded wg total ->
+  make_sentence gr pen cmp preceding wg total = Some s -> wg_path_ok wg 0 total s = true.
+Proof. exact make_sentence_path_ok_grounded. Qed.
+Print Assumptions C07_poet_path_ok_grounded.
+
+(** script translator: hypothesis-free versions of the two sentence theorems, for the modelled Poet with any grammar,
+    comparison, penalty and max_homophones (max_homophones = 0: every edge is empty and no sentence is made) *)
+Theorem C07_script_poet_path_ok : forall gr pen cmp preceding g t mh s,
+  wf_graph g ->
+  make_sentence gr pen cmp preceding (script_wgraph g t mh) (g_ilen g) = Some s ->
+  wg_path_ok (script_wgraph g t mh) 0 (g_ilen g) s = true.
+Proof. exact script_poet_path_ok. Qed.
+Print Assumptions C07_script_poet_path_ok.
+
+Theorem C07_sentence_is_concatenation_modelled_poet : forall pen g t mh s,
+  wf_graph g -> wf_table t ->
+  poet_script pen (script_wgraph g t mh) (g_ilen g) = Some s -> chain g t 0 (g_ilen g) s.
+Proof. intros pen. exact (script_poet_sentence_is_concatenation None pen compare_weight []). Qed.
+Print Assumptions C07_sentence_is_concatenation_modelled_poet.
+
+Theorem C07_script_no_foreign_candidate_modelled_poet : forall pen wordcompl mh g t c,
+  wf_graph g -> wf_table t ->
+  In c (script_query (poet_script pen) wordcompl mh g t) ->
+  phrase_ok g t c \/ completion_ok g t wordcompl c \/ sentence_ok g t c.
+Proof. intros pen. exact (script_poet_no_foreign_candidate None pen compare_weight []). Qed.
+Print Assumptions C07_script_no_foreign_candidate_modelled_poet.
+
+(** the same with a grammar plugin (BeamSearch), whatever its Query function returns *)
+Theorem C07_script_no_foreign_candidate_any_grammar : forall gr pen cmp preceding wordcompl mh g t c,
+  wf_graph g -> wf_table t ->
+  In c (script_query (make_sentence gr pen cmp preceding) wordcompl mh g t) ->
+  phrase_ok g t c \/ completion_ok g t wordcompl c \/ sentence_ok g t c.
+Proof. exact script_poet_no_foreign_candidate. Qed.
+Print Assumptions C07_script_no_foreign_candidate_any_grammar.
+
+(** table translator: the graph TableTranslator::MakeSentence builds is a map of maps in key order with forward edges,
+    and every start position is a vertex reached over an edge with entries *)
+Theorem C07_table_wgraph_shape : forall mhg pr syls t delims inp,
+  let wg := table_wgraph mhg pr syls t delims inp in
+  wg_map wg /\ wg_sorted wg /\ wg_forward wg /\ grounded wg (length inp).
+Proof.
+  intros. split; [apply table_wgraph_map|]. split; [apply table_wgraph_sorted_forward|].
+  split; [apply table_wgraph_sorted_forward|apply table_wgraph_grounded].
+Qed.
+Print Assumptions C07_table_wgraph_shape.
+
+(** the sentence of the table translator is a concatenation of dictionary words, each spelled with a normal spelling by
+    a prism key at its position (trailing delimiters consumed), covering the whole input *)
+Theorem C07_table_sentence_is_concatenation_modelled_poet : forall pen mhg pr syls t delims inp l,
+  table_sentence (poet_table pen) mhg pr syls t delims inp = Some l ->
+  exists s, l = sentence_cand s :: prefix_phrases (snd (table_ms mhg pr syls t delims inp)) /\
+            tchain pr t delims inp 0 (length inp) s /\
+            wg_path_ok (table_wgraph mhg pr syls t delims inp) 0 (length inp) s = true.
+Proof. intros pen mhg pr syls t delims inp. exact (table_poet_sentence_candidate mhg pr syls t delims inp None pen left_associate_compare []). Qed.
+Print Assumptions C07_table_sentence_is_concatenation_modelled_poet.
+
+Theorem C07_table_sentence_is_concatenation_any_grammar : forall gr pen cmp preceding mhg pr syls t delims inp s,
+  make_sentence gr pen cmp preceding (table_wgraph mhg pr syls t delims inp) (length inp) = Some s ->
+  tchain pr t delims inp 0 (length inp) s.
+Proof. intros gr pen cmp preceding mhg pr syls t delims inp. exact (table_poet_sentence_is_concatenation mhg pr syls t delims inp gr pen cmp preceding). Qed.
+Print Assumptions C07_table_sentence_is_concatenation_any_grammar.
+
+(** completeness of the dynamic programme (key-ordered forward graph without empty edges): a sentence is returned iff
+    some chain of at least two words leads from 0 to total.  Otherwise - the end is unreachable, reached by the single
+    word 0 -> total only, or total = 0 - MakeSentence returns a null pointer and no sentence candidate is shown *)
+Theorem C07_poet_dp_complete : forall pen cmp preceding wg total,
+  wg_sorted wg -> wg_forward wg -> wg_no_empty wg ->
+  ((exists s, dp_sentence None pen cmp preceding wg total = Some s) <->
+   (exists p, 2 <= length p /\ wchain wg total 0 total p)).
+Proof. exact dp_sentence_iff. Qed.
+Print Assumptions C07_poet_dp_complete.
+
+(** with empty edges allowed: every chain of at least one step (single edge excluded) yields a sentence *)
+Theorem C07_poet_dp_complete_any_graph : forall pen cmp preceding wg total p,
+  wg_sorted wg -> wg_forward wg -> p <> [] -> wchain wg total 0 total p ->
+  exists s, dp_sentence None pen cmp preceding wg total = Some s.
+Proof. exact dp_sentence_complete. Qed.
+Print Assumptions C07_poet_dp_complete_any_graph.
+
+(** optimality: for a comparison that is a strict weak order preserved under extension by a common word, no chain
+    beats the returned line.  Ties: the update is strict ([compare_(best, new_line)]), so among lines that compare
+    equal the one stored first stays - start positions ascending, end positions in map order, entries in list order *)
+Theorem C07_poet_dp_optimal : forall pen cmp preceding wg total p,
+  cmp_ok cmp -> wg_sorted wg -> wg_forward wg -> p <> [] -> wchain wg total 0 total p ->
+  exists r, dp_best pen cmp preceding total wg = Some r /\
+            dp_sentence None pen cmp preceding wg total = Some (sentence_of r) /\
+            cmp r (line_of pen preceding total p) = false.
+Proof. exact dp_optimal. Qed.
+Print Assumptions C07_poet_dp_optimal.
+
+Theorem C07_poet_comparisons_ok : cmp_ok compare_weight /\ cmp_ok left_associate_compare.
+Proof. split; [exact compare_weight_ok|exact left_associate_compare_ok]. Qed.
+Print Assumptions C07_poet_comparisons_ok.
+
+(** script translator (CompareWeight): the sentence has the greatest total of entry weight + penalty per word *)
+Theorem C07_poet_dp_weight_maximal : forall pen preceding wg total p,
+  wg_sorted wg -> wg_forward wg -> p <> [] -> wchain wg total 0 total p ->
+  exists r, dp_sentence None pen compare_weight preceding wg total = Some (sentence_of r) /\
+            (path_weight pen p <= l_weight r)%Z.
+Proof. exact dp_weight_maximal. Qed.
+Print Assumptions C07_poet_dp_weight_maximal.
+
+(** table translator (LeftAssociateCompare) on the graph it builds: no tiling of the input by dictionary words beats
+    the sentence shown - by weight, then fewer words, then lexicographically greater word lengths *)
+Theorem C07_table_sentence_optimal : forall pen mhg pr syls t delims inp p,
+  let wg := table_wgraph mhg pr syls t delims inp in
+  p <> [] -> wchain wg (length inp) 0 (length inp) p ->
+  exists r, poet_table pen wg (length inp) = Some (sentence_of r) /\
+            left_associate_compare r (line_of pen [] (length inp) p) = false.
+Proof.
+  intros pen mhg pr syls t delims inp p wg Np H.
+  destruct (dp_optimal pen left_associate_compare [] wg (length inp) p left_associate_compare_ok
+              (proj1 (table_wgraph_sorted_forward mhg pr syls t delims inp))
+              (proj2 (table_wgraph_sorted_forward mhg pr syls t delims inp)) Np H) as [r [_ [E C]]].
+  exists r. split; [exact E|exact C].
+Qed.
+Print Assumptions C07_table_sentence_optimal.
+
+(** non-vacuity: two competing segmentations of [0, 3) beside a much heavier single word *)
+Theorem C07_poet_example_hypotheses :
+  wg_map ex_wg /\ wg_sorted ex_wg /\ wg_forward ex_wg /\ wg_no_empty ex_wg /\
+  wchain ex_wg 3 0 3 [(eA, 1); (eB, 3)] /\ wchain ex_wg 3 0 3 [(eC, 2); (eD, 3)].
+Proof. exact ex_wg_hyps. Qed.
+Print Assumptions C07_poet_example_hypotheses.
+
+Theorem C07_poet_example_best :
+  dp_sentence None (-10)%Z compare_weight [] ex_wg 3 = Some [(eC, 2); (eD, 3)] /\
+  path_weight (-10)%Z [(eC, 2); (eD, 3)] = (-11)%Z /\ path_weight (-10)%Z [(eA, 1); (eB, 3)] = (-14)%Z.
+Proof. exact ex_dp_best. Qed.
+Print Assumptions C07_poet_example_best.
+
+Theorem C07_poet_example_tie_break :
+  dp_sentence None (-10)%Z compare_weight [] ex_wg_tie 3 = Some [(eA, 1); (eB, 3)] /\
+  dp_sentence None (-10)%Z left_associate_compare [] ex_wg_tie 3 = Some [(eC, 2); (eD', 3)].
+Proof. exact ex_dp_tie. Qed.
+Print Assumptions C07_poet_example_tie_break.
+
+Theorem C07_poet_example_no_sentence :
+  dp_sentence None (-10)%Z compare_weight [] [(0, [(3, [eE])])] 3 = None /\
+  dp_sentence None (-10)%Z compare_weight [] ex_wg 4 = None.
+Proof. exact ex_dp_none. Qed.
+Print Assumptions C07_poet_example_no_sentence.
